@@ -15,7 +15,7 @@ var injections = []string{
 	"assign-defined", "incdec-field", "for-two-vars", "unary-minus", "uint16", "map-literal",
 	"struct-compare", "string-less", "goto", "shadow-loopvar", "fallthrough-else-if-return",
 	"anonymous-struct", "func-literal-arg", "slice-of-string", "bool-to-int-branch", "nested-return-in-range",
-	"compound-index-opassign", "variadic-append",
+	"compound-index-opassign", "variadic-append", "return-then-else-if", "log-bound-results",
 }
 
 func (g *rgen) injectNow(ind, d int, mode blockMode) {
@@ -148,6 +148,16 @@ func (g *rgen) injectNow(ind, d int, mode blockMode) {
 		n := g.fresh()
 		emit("var "+n+" uint64 = 0", "if "+g.cond(1)+" {", "\t"+n+" = 1", "} else if "+g.cond(1)+" {", "\treturn "+e(), "}")
 		g.vars = append(g.vars, rvar{name: n, ty: tU64, mutable: true})
+	case "return-then-else-if":
+		if mode != modeRet {
+			return
+		}
+		n := g.fresh()
+		emit("var "+n+" uint64 = 0", "if "+g.cond(1)+" {", "\treturn "+e(), "} else if "+g.cond(1)+" {", "\t"+n+" = 1", "}")
+		g.vars = append(g.vars, rvar{name: n, ty: tU64, mutable: true})
+	case "log-bound-results":
+		n := g.fresh()
+		emit(n+", _ := fmt.Println(\"v\", x)", "_ = "+n)
 	case "closure-call":
 		n := g.fresh()
 		emit("var "+n+" uint64 = 0", "func() {", "\t"+n+" = "+e(), "}()")
